@@ -53,8 +53,15 @@ def check_names(idx: Index, rep: Report) -> None:
     r = rep.rule("C04.R1", "every name hint the IR API accepts is a suffix-id the lexer accepts: L(_VALUE_NAME_PATTERN) ⊆ L(MLIRLexer._suffix_id)", floor=1)
     # the validity predicate and the setter must use that pattern with fullmatch
     ev = idx.func(CORE, "IRWithName.extract_valid_name")
-    if not any(unparse(c.func) == "_VALUE_NAME_PATTERN.fullmatch" for c in calls_in(ev.node)):
-        raise AnalysisError(f"{ev.fq}: validity is no longer decided by _VALUE_NAME_PATTERN.fullmatch")
+    methods = {c.func.attr for q_ in ("IRWithName.extract_valid_name", "IRWithName.is_valid_name") for c in calls_in(idx.func(CORE, q_).node) if isinstance(c.func, ast.Attribute) and unparse(c.func.value) == "_VALUE_NAME_PATTERN"}
+    if not methods or not methods <= {"fullmatch", "match"}:
+        raise AnalysisError(f"{ev.fq}: validity is decided by _VALUE_NAME_PATTERN.{sorted(methods)}; only fullmatch / match are modelled")
+    # the set of whole strings the predicate accepts (for `match`: Python's `$` also matches before a trailing line feed,
+    # and without a trailing anchor every extension of a matching prefix is accepted)
+    try:
+        L = rx.union(*[rx.match_language(name_pat, name_fl, m_) for m_ in sorted(methods)]) if len(methods) > 1 else rx.match_language(name_pat, name_fl, next(iter(methods)))
+    except NotImplementedError as e:
+        raise AnalysisError(f"{ev.fq}: {e}")
     setter = idx.func(CORE, "IRWithName.name_hint.setter")
     if not any(call_attr(c) == "extract_valid_name" for c in calls_in(setter.node)):
         r.fail(setter.fq, Finding("C04.R1", setter.fq, "setter-unvalidated", "the name_hint setter no longer passes the name through extract_valid_name: arbitrary text can become an SSA name", setter.loc))
